@@ -321,8 +321,9 @@ ocp.set_der(v, a)
             widths = set([self.origins[i]["w"] for i in deps])
             assert len(widths)==1
             coeffs = ca.vcat([self.coeffs_epxr[i] for i in deps])
-            d = self.origins[deps[0]]["d"]
-            return self.t0+self.G[d]*self.T, (Jmul @ coeffs)+bs
+            # Member i of a chain whose head has degree d is a spline of degree d-i
+            d = self.origins[deps[0]]["d"]-self.origins[deps[0]]["i"]
+            return self.t0+get_greville_points(self.xi, d)*self.T, (Jmul @ coeffs)+bs
         elif has_entries[1]:
             deps = ca.sum1(Js[1].sparsity()).T.row()
             vars = vvcat(self.signals.keys())[deps]
